@@ -347,6 +347,7 @@ func (vc *VC) contractCall(fi *FuncInfo, args []Val, st *State, reach Term, rt t
 	if fi.missing != "" {
 		vc.fail("callee contract unresolved: %s", fi.missing)
 	}
+	vc.usedCallees[fi] = true
 	env := map[string]Val{}
 	for i, n := range fi.params {
 		if i < len(args) {
